@@ -369,6 +369,7 @@ func c01Builders(p *Prog, ib *inbound, r *Report) {
 		})
 	}
 	r.Floor("R4", "response builders", nBuilders, 2)
+	c01ResultNumber(p, ib, r)
 }
 
 // ---- R5: call sites ----
@@ -602,4 +603,68 @@ func c01ReadRoleTable(p *Prog, ib *inbound, r *Report, rule string) {
 		r.Check(rule, FnName(fn)+"|reply-by-role", ok, p.InstrPos(reply), strings.Join(got, "; ")+" (required: server and special answered, client rejected)")
 	}
 	r.Floor(rule, "functions of the local feature replying to a read", n, 1)
+}
+
+// c01ResultNumber: the result builder reports the error it was given — with an error the result's number is the
+// error's own number, without one it is the constant "no error". A success number on the error branch turns every
+// rejection into an acknowledgement.
+func c01ResultNumber(p *Prog, ib *inbound, r *Report) {
+	n := 0
+	for _, body := range p.RepoFns("spine") {
+		if !isSenderFn(ib, body) {
+			continue
+		}
+		base := FnName(body)
+		for _, b := range body.Blocks {
+			for _, ins := range b.Instrs {
+				st, isSt := ins.(*ssa.Store)
+				if !isSt {
+					continue
+				}
+				fa, isFA := st.Addr.(*ssa.FieldAddr)
+				if !isFA || fieldOfAddr(fa) == nil || fieldOfAddr(fa).Name() != "ErrorNumber" || !isNamed(fa.X.Type(), "model", "ResultDataType") {
+					continue
+				}
+				// which branch of the test of the error parameter?
+				branch := ""
+				for _, g := range Guards(b) {
+					x, trueNil, isNil := nilTest(g.Cond)
+					if !isNil || !isNamed(x.Type(), "model", "ErrorType") {
+						continue
+					}
+					if _, isPar := x.(*ssa.Parameter); !isPar {
+						continue
+					}
+					if trueNil == g.Val {
+						branch = "no-error"
+					} else {
+						branch = "error"
+					}
+				}
+				if branch == "" {
+					continue
+				}
+				n++
+				val := Path(st.Val)
+				switch branch {
+				case "error":
+					ok := strings.HasPrefix(val, "param:") && strings.HasSuffix(val, ".ErrorNumber")
+					r.Check("R4", base+"|error-number", ok, p.InstrPos(st), "with an error the result carries the error's own number: ErrorNumber = "+val)
+				case "no-error":
+					v := st.Val
+					// util.Ptr(constant): a one-argument helper returning a pointer to its argument's type
+					if c, isC := v.(*ssa.Call); isC && len(c.Call.Args) == 1 && !c.Call.IsInvoke() {
+						if pt, isP := c.Type().Underlying().(*types.Pointer); isP && types.Identical(pt.Elem(), c.Call.Args[0].Type()) {
+							v = c.Call.Args[0]
+						}
+					}
+					kv, isK := constInt(v)
+					r.Check("R4", base+"|success-number", isK && kv == 0, p.InstrPos(st), "without an error the result carries the number 0 (no error): ErrorNumber = "+Path(v))
+				}
+			}
+		}
+	}
+	if n < 2 {
+		r.Undecided("R4", "result-builder|error-number", "", fmt.Sprintf("%d stores of the result's error number under a test of the error parameter found, 2 expected (error branch and success branch)", n))
+	}
 }
